@@ -12,6 +12,9 @@ CLAIMS = {
  'C15': dict(engine='ALG', technique='abstract interpretation of LLVM IR over exact rational functions (symbolic arguments, decision-tree leaves); polynomial identity checking by normal form; loop-body state-transformer templates for Horner/reversal loops',
    cat='proof', text='all boundary conditions of the cubic/quintic/septic generators are discharged as exact identities in Q(ts,p0,..,j1); every derivative builder and evaluator (pos/vel/acc/jer, c0..c3) is shown to be the exact successive derivative of the position polynomial; the Horner loops (both coefficient orders) and the reversal loop are checked as one-iteration recurrences with guard/first-cell/step obligations that hold for every length',
    note=TRUST + ', sympy expand/cancel; IEEE operations are read as exact real operations and literals as the rationals they round (1.0/6 -> 1/6): the size of rounding error (the "within rounding" clause) is NOT decided; ctx and output arrays assumed distinct; the Horner clause for arbitrary length rests on the textbook induction over the verified recurrence; a_poly_eval/evar wrappers additionally checked for lengths 1..6'),
+ 'C19': dict(engine='BIT+ALG', technique='bit-level abstract interpretation in GF(2) algebraic normal form (canonical, exact for all inputs); loop-body state-transformer templates (Euclid, integer Newton) with start-value partition on bit length',
+   cat='proof', text='bit reversal (4 widths) and the 12 little/big-endian load/store accessors are proved bit-for-bit for all inputs (ANF equality), incl. that only byte accesses inside the object occur; gcd is shown to be exactly the Euclid recurrence, isqrt exactly the integer Newton iteration with a start value compared against floor(sqrt(2^L-1)) for every bit length L and an overflow check, lcm the divide-before-multiply shape with the gcd==0 case separated',
+   note=TRUST + '; the gcd and isqrt clauses rest on the two cited textbook lemmas about the recognised algorithms (a different algorithm, e.g. binary gcd or digit-by-digit sqrt, makes the check INCONCLUSIVE, not PASS); only the __builtin_clz (Newton) branch that this host compiles is analysed'),
 }
 
 NA = {
@@ -44,7 +47,8 @@ def main():
                   'baseline_off_cmd': 'ctest --test-dir /repo/_build -j8 --timeout 900', 'source_commits': [], 'add_only': True},
         'engines': [
             {'name': 'irx+llir', 'path': 'lib/irx.py, lib/llir.py', 'serves_properties': sorted(CLAIMS), 'kind_free_text': 'clang/opt IR pipeline and IR reader (CFG, dominators, loops, def-use)'},
-            {'name': 'ALG', 'path': 'lib/symx.py, lib/alg.py', 'serves_properties': ['C15'], 'kind_free_text': 'abstract interpreter over exact algebraic values with trace partitioning'},
+            {'name': 'ALG', 'path': 'lib/symx.py, lib/alg.py', 'serves_properties': ['C15', 'C19'], 'kind_free_text': 'abstract interpreter over exact algebraic values with trace partitioning'},
+            {'name': 'BIT', 'path': 'lib/bit.py, lib/looptx.py', 'serves_properties': ['C19'], 'kind_free_text': 'GF(2) algebraic-normal-form bit vectors; loop-body state transformers'},
             {'name': 'ABI', 'path': 'props/C20.py, lib/dwarf.py, lib/rustsrc.py', 'serves_properties': ['C20'], 'kind_free_text': 'declaration and layout agreement'},
         ],
         'checks': checks,
